@@ -296,6 +296,7 @@ pub fn merge(shared: &Shared, text: &str, size: usize, depth: usize, key: Key, o
 
 #[derive(Clone, Debug)]
 pub struct Finding {
+    pub witness: String,
     pub id: String,
     pub property: String,
     pub clause: String,
@@ -316,6 +317,7 @@ pub fn load_findings(property: &str) -> Vec<Finding> {
     for f in v["findings"].as_array().cloned().unwrap_or_default() {
         if f["property"].as_str() == Some(property) {
             out.push(Finding {
+                witness: f["witness"].as_str().unwrap_or("").to_string(),
                 id: f["id"].as_str().unwrap_or("").to_string(),
                 property: property.to_string(),
                 clause: f["clause"].as_str().unwrap_or("").to_string(),
@@ -436,6 +438,22 @@ pub fn finish(ctx: &Ctx, shared: &Shared, check: &dyn StateCheck, fin: Finish) -
     }
 
     for f in &findings {
+        // the witness input of every open finding is replayed on each run
+        if !f.witness.is_empty() {
+            let wp = format!("{}/{}", verif_root(), f.witness);
+            match std::fs::read_to_string(&wp).ok().and_then(|t| serde_json::from_str::<Value>(&t).ok()) {
+                Some(w) => {
+                    let text = w["text"].as_str().unwrap_or("").to_string();
+                    let k0 = w["hash_key"][0].as_str().and_then(|s| s.parse::<u64>().ok()).unwrap_or(1 << 40);
+                    let k1 = w["hash_key"][1].as_str().and_then(|s| s.parse::<u64>().ok()).unwrap_or(sched::K1);
+                    let (vs, _) = replay_record(check, &text, (k0, k1));
+                    if !vs.iter().any(|v| matches_finding(f, v)) {
+                        println!("NOTE: known finding {} does not reproduce on its witness {} any more (stale entry?)", f.id, f.witness);
+                    }
+                }
+                None => println!("NOTE: witness {} of known finding {} is unreadable", f.witness, f.id),
+            }
+        }
         let hits = known_total.get(&f.id).copied().unwrap_or(0);
         println!("KNOWN-FINDING: property={} {} {} hits={}", property, f.id, f.what, hits);
     }
